@@ -155,6 +155,24 @@ def _card(self, S):
         T_ = z3.Const("cd!T", SetS)
         self.axioms.append(z3.ForAll([S_, T_], z3.Implies(z3.And(z3.IsSubset(S_, T_), card(S_) == card(T_)), S_ == T_),
                                      patterns=[z3.MultiPattern(card(S_), card(T_))]))
+        # library lemma (a consequence of the axioms above, proved on every run): a set of cardinality one has one element
+        a_, b_ = z3.Ints("cd!a cd!b")
+        base = list(self.axioms[-6:])
+        S1 = z3.Store(S_, a_, False)
+        sol = z3.Solver()
+        sol.set("timeout", 20000)
+        for ax in base:
+            sol.add(ax)
+        sol.add(card(S_) == 1, S_[a_], S_[b_], a_ != b_)
+        sol.add(card(S1) >= 0)  # (names the term that keys the removal axiom)
+        t0 = time.time()
+        r = sol.check()
+        self.library_lemmas = getattr(self, "library_lemmas", []) + [{
+            "label": "library lemma card-one (card(S) == 1 and a, b in S implies a == b)", "kind": "library-lemma",
+            "status": "discharged" if r == z3.unsat else ("refuted" if r == z3.sat else "unknown"), "backend": "z3", "time_s": time.time() - t0, "detail": None, "line": None}]
+        if r == z3.unsat:
+            self.axioms.append(z3.ForAll([S_, a_, b_], z3.Implies(z3.And(card(S_) == 1, S_[a_], S_[b_]), a_ == b_),
+                                         patterns=[z3.MultiPattern(card(S_), S_[a_], S_[b_])]))
     return self.specfns["card"][0](S)
 
 
